@@ -156,8 +156,8 @@ def conformance(ctx, total, parts, only=None):
 
 def selftests(ctx, events):
     blocks = [b for b in tlc.split_blocks(events) if not any(e["e"] in ("Abort", "Shape") for e in b)]
-    blocks = [b for b in blocks if not any(_would_fail(e) for e in b if e["e"] in ("Rss", "Ols", "Beta", "Stat", "Affine"))][:20]
-    ev = [e for b in blocks for e in b]
+    ev = [e for b in blocks[:40] for e in b]
+    ev = [e for e in ev if not (e["e"] in ("Rss", "Ols", "Beta", "Stat", "Affine") and _would_fail(e))]
 
     def corrupt_ols(evs):
         for e in evs:
